@@ -47,6 +47,29 @@ def spec_function(model, filename, name, as_method=False):
                         % (name, filename))
 
 
+def spec_method(program, filename, name, cls_qual):
+    """Reference function whose first parameter stands for an instance of the
+    repository class cls_qual (so that self.m(...) resolves like in the live
+    method)."""
+    model = program.model
+    fi = spec_function(model, filename, name, as_method=True)
+    if cls_qual not in model.classes:
+        raise AnalysisError("anchor vanished: class " + cls_qual)
+    fi.cls = model.classes[cls_qual]
+    fi.qualname = "spec.%s.%s" % (filename[:-3], name)
+    if fi.params:
+        program.vtype[(fi.qualname, fi.params[0])] = {"C:" + cls_qual}
+    return fi
+
+
+def _unused():
+    if True:
+        if True:
+            pass
+    raise AnalysisError("reference function %s missing in spec/%s"
+                        % (name, filename))
+
+
 class _FakeClass:
     qualname = "spec.<reference>"
     name = "<reference>"
@@ -99,7 +122,13 @@ def default_effects(p):
 
 
 def compare(program, live_fi, ref_fi, effects=default_effects,
-            live_kw=None, ref_kw=None, outcome_norm=None, rename=None):
+            live_kw=None, ref_kw=None, outcome_norm=None, rename=None,
+            independent=None):
+    """`independent(atom)`: the rule's lemma that an observation outside the
+    reference vocabulary is independent of every reference observation (any
+    joint valuation is feasible), e.g. the character at a different position
+    of an arbitrary input string.  A mismatch whose unknown atoms are all
+    independent is a definite violation."""
     """Returns dict(verdict=..., rows=n, witness=...)."""
     live_kw = live_kw or {}
     ref_kw = ref_kw or {}
@@ -136,7 +165,8 @@ def compare(program, live_fi, ref_fi, effects=default_effects,
                      "reference_valuation": {A.fmt_atom(a): v
                                              for a, v in rval.items()},
                      "live": _show(lo), "reference": _show(ro)}
-                if unk:
+                if unk and not (independent is not None
+                                and all(independent(a) for a in unk)):
                     unknown.setdefault(tuple(sorted(A.fmt_atom(a)
                                                     for a in unk)), w)
                 else:
